@@ -1,4 +1,5 @@
 import Qhttp.Model.Tls
+import Qhttp.Model.Handler
 /-
   Vocabulary of the translated `Server::incomingConnection` (`QhttpGen/Srv.lean`): what the function does with the new
   connection, recorded as a list of actions; the one question it asks is whether a TLS configuration was set.
@@ -26,6 +27,14 @@ inductive Act
   | startEncryption         -- socket->startServerEncryption()
   | process                 -- d->process(socket), now
 deriving DecidableEq, Repr
+
+/-- what `ProxyHandler::process(socket, path)` does -/
+inductive PAct
+  | reparent                      -- socket->setParent(this)
+  | newProxySocket (path : QStr)  -- new ProxySocket(socket, path, d->address, d->port)
+deriving DecidableEq, Repr
+
+def pact (s : List PAct) (a : PAct) : List PAct := s ++ [a]
 
 structure Env where
   tlsNull : Bool := true    -- d->configuration.isNull()
